@@ -109,6 +109,10 @@ impl<'a> Tr<'a> {
                         if f == *t {
                             Ok(Val { s: v.s, ty: target })
                         } else {
+                            if *t == IntTy::Usize {
+                                // `x as usize` wraps at the width of usize
+                                self.usize_w.set(true);
+                            }
                             Ok(Val { s: format!("(Casts.cast_{}_{} {})", f.name(), t.name(), v.s), ty: target })
                         }
                     }
@@ -361,7 +365,10 @@ impl<'a> Tr<'a> {
             BinOp::BitOr(_) | BinOp::BitOrAssign(_) => format!("(Z.lor {} {})", l.s, r.s),
             BinOp::BitXor(_) | BinOp::BitXorAssign(_) => format!("(Z.lxor {} {})", l.s, r.s),
             // Rust drops the bits shifted out of the type silently (no overflow check on the value): truncate like Rust
-            BinOp::Shl(_) | BinOp::ShlAssign(_) => format!("(Casts.shl_{} {} {})", need("<<")?.name(), l.s, r.s),
+            BinOp::Shl(_) | BinOp::ShlAssign(_) => {
+                let t = need("<<")?;
+                format!("(Casts.shl_{} {} {})", t.name(), l.s, r.s)
+            }
             BinOp::Shr(_) | BinOp::ShrAssign(_) => format!("(Z.shiftr {} {})", l.s, r.s),
             _ => return Err(unsupported(at, "binary operator on integers")),
         })
